@@ -149,7 +149,16 @@ func (c *Ctx) retainedInsertStores() {
 			return false
 		}
 		if nd.F == g.Root {
-			return p.Root == ssa.Value(fn.Params[0])
+			if p.Root == ssa.Value(fn.Params[0]) {
+				return true
+			}
+			// the walk written as a loop: the node reached is the loop's node variable
+			if ph, ok := p.Root.(*ssa.Phi); ok {
+				if named, ok := derefNamedType(ph.Type()); ok && named == "rnode" {
+					return true
+				}
+			}
+			return false
 		}
 		if nd.F.Site == nil || nd.F.Parent != g.Root || len(nd.F.Fn.Params) == 0 || p.Root != ssa.Value(nd.F.Fn.Params[0]) {
 			return false
